@@ -3,7 +3,7 @@
 //! stepped by the harness with withdrawals interleaved. Decides C16.
 
 use crate::common::{catch, close, Ctx, Tier, BUDGET_PANIC, X};
-use crate::e3::{broker_world, build_server, costs_to_sut, gen_costs, gen_modes, realise, CostSpec, Ledger};
+use crate::e3::{broker_world, build_server, costs_to_sut, gen_costs, gen_modes, gen_modes_f, realise, CostSpec, Ledger};
 use crate::engine::Engine;
 use crate::exec::block_on;
 use crate::rng::Rng;
@@ -37,6 +37,9 @@ pub struct OpRec {
     pub op: SOp,
     pub perm: u64,
     pub modes: Vec<Delivery>,
+    /// how many transport faults the simulator may inject during this op (then faults stop)
+    #[serde(default)]
+    pub fault_budget: u32,
 }
 
 #[derive(Clone, Debug, Serialize, Deserialize)]
@@ -72,6 +75,12 @@ struct Sim<'a> {
     any_withdrawal_attempt: bool,
     aborted: bool,
     bt: u64,
+    /// the server's clock after each tick attempt of the strategy (one attempt per update)
+    attempts: Vec<i64>,
+    last_clock: i64,
+    /// attempts that advanced the server (delivered or response lost)
+    server_ticks: usize,
+    lost_tick_requests: usize,
 }
 
 impl<'a> Sim<'a> {
@@ -107,42 +116,98 @@ impl<'a> Sim<'a> {
             any_withdrawal_attempt: false,
             aborted: false,
             bt,
+            attempts: Vec::new(),
+            last_clock: case.dataset.dates[0],
+            server_ticks: 0,
+            lost_tick_requests: 0,
         })
     }
 
+    fn push_valuation(&mut self) {
+        let mut v = self.led.cash;
+        let mut mag = self.led.cash.abs().max(1.0);
+        for (s, q) in &self.led.holdings {
+            if let Some(lq) = self.led.last_quotes.get(s) {
+                v += q * lq.0;
+                mag += (q * lq.0).abs();
+            }
+        }
+        self.valuations.push((v, mag));
+    }
+
+    fn book(&mut self, ts: &[rotala::exchange::uist_v1::Trade]) {
+        for t in ts {
+            self.led.book_trade(t);
+        }
+        self.ctx.add("fills_reconciled", ts.len() as u64);
+    }
+
+    /// One tick attempt per update: delivered (then its quote request succeeds or fails), response lost,
+    /// or request lost. After each attempt the ledger is valued: that is what the snapshot of this update
+    /// must report.
     fn absorb_wire(&mut self) {
-        let wire = self.sh.wire.borrow();
+        let wire: Vec<Wire> = self.sh.wire.borrow()[self.wire_seen..].to_vec();
         let mut pending: Option<Vec<rotala::exchange::uist_v1::Trade>> = None;
-        for w in wire[self.wire_seen..].iter() {
+        for w in wire.iter() {
             match w {
-                Wire::Tick { trades, .. } => {
+                Wire::Tick { trades, clock_after, .. } => {
+                    if let Some(ts) = pending.take() {
+                        // a tick whose quote request never happened: its trades arrived all the same
+                        self.book(&ts);
+                        self.push_valuation();
+                    }
                     pending = Some(trades.clone());
                     self.ctx.sim_ticks += 1;
+                    self.server_ticks += 1;
+                    self.last_clock = clock_after.unwrap_or(self.last_clock);
+                    self.attempts.push(self.last_clock);
+                }
+                Wire::TickLost { trades, clock_after, .. } => {
+                    // unknowable to the broker: nothing is booked
+                    self.ctx.sim_ticks += 1;
+                    self.server_ticks += 1;
+                    self.last_clock = clock_after.unwrap_or(self.last_clock);
+                    self.attempts.push(self.last_clock);
+                    self.ctx.bump("f13_tick_response_lost");
+                    self.ctx.add("f13_trades_the_broker_could_not_learn_of", trades.len() as u64);
+                    ev!(self.ctx, "fault: the server ticked ({} trades), the tick response was lost", trades.len());
+                    self.push_valuation();
                 }
                 Wire::Fetch { quotes, .. } => {
                     for q in quotes {
                         self.led.last_quotes.insert(q.symbol.clone(), (q.bid, q.ask, q.date));
                     }
                     if let Some(ts) = pending.take() {
-                        for t in &ts {
-                            self.led.book_trade(t);
+                        self.book(&ts);
+                        self.push_valuation();
+                    }
+                }
+                Wire::Failed { what } => {
+                    ev!(self.ctx, "fault: {what} failed at the transport (client returned Err)");
+                    match *what {
+                        "insert_order" => self.ctx.bump("f10_insert_order_request_lost"),
+                        "tick" => {
+                            self.ctx.bump("f12_tick_request_lost");
+                            self.lost_tick_requests += 1;
+                            self.attempts.push(self.last_clock);
+                            self.push_valuation();
                         }
-                        self.ctx.add("fills_reconciled", ts.len() as u64);
-                        let mut v = self.led.cash;
-                        let mut mag = self.led.cash.abs().max(1.0);
-                        for (s, q) in &self.led.holdings {
-                            if let Some(lq) = self.led.last_quotes.get(s) {
-                                v += q * lq.0;
-                                mag += (q * lq.0).abs();
+                        _ => {
+                            self.ctx.bump("f13_quote_response_lost");
+                            if let Some(ts) = pending.take() {
+                                self.book(&ts);
+                                self.push_valuation();
                             }
                         }
-                        self.valuations.push((v, mag));
                     }
                 }
                 _ => {}
             }
         }
-        drop(wire);
+        if let Some(ts) = pending.take() {
+            self.book(&ts);
+            self.push_valuation();
+        }
         self.wire_seen = self.sh.wire_len();
     }
 
@@ -164,12 +229,13 @@ impl<'a> Sim<'a> {
                 self.hist_seen = hist.len();
                 return;
             }
-            // j-th update (0-based) performs tick j+1: the clock then shows date min(j+1, n-1)
-            let want_date = ds.dates[(j + 1).min(n - 1)];
+            // j-th update (0-based) performs tick attempt j: the snapshot is dated by the server's clock after
+            // it (without faults: date min(j+1, n-1))
+            let want_date = self.attempts.get(j).copied().unwrap_or(ds.dates[(j + 1).min(n - 1)]);
             let date: i64 = snap.date.into();
             rule!(
                 self.ctx, "C16", "snapshot-date", "history", date == want_date,
-                "snapshot #{j} is dated {date}, the clock after tick {} shows {want_date}", j + 1
+                "snapshot #{j} is dated {date}, the clock after tick attempt {} shows {want_date}", j + 1
             );
             if j > 0 {
                 let prev: i64 = hist[j - 1].date.into();
@@ -207,6 +273,7 @@ impl<'a> Sim<'a> {
 
     fn init(&mut self) {
         self.sh.set_modes(&self.case.init_modes);
+        self.sh.fault_budget.set(0);
         alator::verif::set_positions_seed(Some(self.case.init_perm));
         let dep = self.case.deposit.0;
         let r = catch(|| self.strat.init(&dep));
@@ -235,6 +302,7 @@ impl<'a> Sim<'a> {
         self.ctx.ops += 1;
         self.ctx.ileave(0, rec.modes.len() as u64, match rec.op { SOp::RunLoop => 1, SOp::Update => 2, SOp::Withdraw { .. } => 3, SOp::WithdrawLiq { .. } => 4, SOp::InitAgain { .. } => 5 });
         self.sh.set_modes(&rec.modes);
+        self.sh.fault_budget.set(rec.fault_budget as i64);
         alator::verif::set_positions_seed(Some(rec.perm));
         self.ctx.bump("f9_positions_permutations_installed");
         let r = catch(|| self.exec_inner(rec));
@@ -266,17 +334,23 @@ impl<'a> Sim<'a> {
                 let h = self.strat.get_history().len();
                 ev!(self.ctx, "run -> {} snapshots, clock {:?}", h, self.clock());
                 self.updates = h;
-                rule!(self.ctx, "C16", "exactly-n-updates", "run", h == n, "run() on a dataset of {n} dates recorded {h} snapshots");
+                // every update attempts one tick; the loop ends once N of them have reached the server, so a tick
+                // request lost on the way (injected, at most `fault_budget` of them) costs exactly one more update
+                let want = n + self.lost_tick_requests;
+                rule!(
+                    self.ctx, "C16", "exactly-n-updates", "run", h == want,
+                    "run() on a dataset of {n} dates recorded {h} snapshots ({} tick requests were lost by the transport: {want} updates are needed)", self.lost_tick_requests
+                );
                 self.check_history(None);
-                if h == n {
+                if h == want {
                     self.ctx.nontrivial = true;
                 }
             }
             SOp::Update => {
                 let has_next = self.strat.verif_brkr_mut().has_next();
                 rule!(
-                    self.ctx, "C16", "has-next", "stepped", has_next == (self.updates < n),
-                    "after {} updates on a {n}-date dataset the loop condition has_next is {has_next}", self.updates
+                    self.ctx, "C16", "has-next", "stepped", has_next == (self.server_ticks < n),
+                    "after {} updates ({} ticks reached the server) on a {n}-date dataset the loop condition has_next is {has_next}", self.updates, self.server_ticks
                 );
                 if !has_next {
                     return;
@@ -294,7 +368,7 @@ impl<'a> Sim<'a> {
                         .b(b.get_cash_balance() < 0.0)
                         .u(b.get_holdings().len().min(4) as u64)
                         .u(b.get_pending_orders().len().min(4) as u64)
-                        .u(if self.updates < n { 0 } else { 1 });
+                        .u(if self.server_ticks < n { 0 } else { 1 });
                     self.ctx.state(d.0);
                 }
                 self.check_history(Some(v));
@@ -302,7 +376,7 @@ impl<'a> Sim<'a> {
                     self.ctx, "C16", "one-snapshot-per-update", "stepped", self.strat.get_history().len() == self.updates,
                     "{} updates but {} snapshots", self.updates, self.strat.get_history().len()
                 );
-                if self.updates == n {
+                if self.server_ticks == n {
                     self.ctx.nontrivial = true;
                 }
             }
@@ -428,6 +502,10 @@ impl Engine for E4 {
         let eager_only = g.one_in(4);
         let delay_p = *g.pick(&[0.0, 0.2, 0.5]);
         let run_mode = flat_world || g.one_in(2);
+        // transport faults (lost insert / tick requests, lost tick / quote responses), a bounded number per
+        // op; drawn from a fork so that the fault-free runs stay what they were
+        let mut fg = root.fork("faults");
+        let fail_p = if eager_only { 0.0 } else { *fg.pick(&[0.0, 0.0, 0.0, 0.1, 0.3]) };
         let init_modes = gen_modes(&mut g, eager_only, delay_p);
         let mut case = Case { path, single, dataset, flat_world, costs, weights, deposit, init_perm: g.next_u64(), init_modes, ops: Vec::new() };
         let world = case.clone();
@@ -451,7 +529,8 @@ impl Engine for E4 {
         sim.init();
         if run_mode {
             sim.ctx.bump("runs_own_loop");
-            let rec = OpRec { op: SOp::RunLoop, perm: g.next_u64(), modes: gen_modes(&mut g, eager_only, delay_p) };
+            let modes = if fail_p > 0.0 { gen_modes_f(&mut fg, eager_only, delay_p, fail_p) } else { gen_modes(&mut g, eager_only, delay_p) };
+            let rec = OpRec { op: SOp::RunLoop, perm: g.next_u64(), modes, fault_budget: if fail_p > 0.0 { fg.range(1, 8) as u32 } else { 0 } };
             if !sim.ctx.failed() && !sim.aborted {
                 sim.exec(&rec);
             }
@@ -460,7 +539,7 @@ impl Engine for E4 {
             sim.ctx.bump("runs_stepped");
             let n = world.dataset.n();
             let mut guard = 0;
-            while !sim.ctx.failed() && !sim.aborted && sim.updates < n + 1 && guard < 4 * n + 8 {
+            while !sim.ctx.failed() && !sim.aborted && sim.server_ticks < n + 1 && guard < 4 * n + 8 {
                 guard += 1;
                 alator::verif::set_positions_seed(Some(0));
                 let b = sim.strat.verif_brkr();
@@ -473,7 +552,8 @@ impl Engine for E4 {
                     1 => SOp::WithdrawLiq { amt: X((cash.max(0.0) + (total - cash).max(0.0) * g.f64() * 0.5).floor() + 1.0) },
                     _ => SOp::Update,
                 };
-                let rec = OpRec { op, perm: g.next_u64(), modes: gen_modes(&mut g, eager_only, delay_p) };
+                let modes = if fail_p > 0.0 { gen_modes_f(&mut fg, eager_only, delay_p, fail_p) } else { gen_modes(&mut g, eager_only, delay_p) };
+                let rec = OpRec { op, perm: g.next_u64(), modes, fault_budget: if fail_p > 0.0 { fg.range(0, 2) as u32 } else { 0 } };
                 let was = sim.updates;
                 sim.exec(&rec);
                 let is_update = matches!(rec.op, SOp::Update);
